@@ -59,6 +59,12 @@ func w4GenVersions(r *rand.Rand) *simrt.Case {
 		}
 		c.Program = append(c.Program, simrt.Op{Actor: cl, Kind: "conn", D: pickI(r, 0, 0, 5), A: pickI(r, 0, 0, 50)})
 	}
+	if r.IntN(4) == 0 {
+		// a cold start: the sweep begins before the proxy has its first view of the cluster
+		cfg["cold"] = 1
+		cfg["static_backends"] = 0
+		cfg["store_lat_us"] = pickI(r, 300, 5000, 50000)
+	}
 	if r.IntN(3) == 0 {
 		// a troubled run: replies the proxy has to build itself
 		cfg["troubled"] = 1
@@ -205,13 +211,23 @@ func (w *w4) faultsFiredTotal() int {
 // sweepClient sends, key by key, a request at every advertised version (and a few outside the range).
 func (w *w4) sweepClient(id int, op simrt.Op) {
 	troubled := w.cfg("troubled", 0) == 1
-	if !troubled {
+	cold := w.cfg("cold", 0) == 1
+	if !troubled && !cold {
 		for i := 0; i < 100 && !w.p.isReady(); i++ {
 			simrt.Sleep(timeMs(100))
 		}
 	}
 	adv := append([]kmsg.ApiVersionsResponseApiKey(nil), w.p.apiVersions...)
-	sort.Slice(adv, func(i, j int) bool { return adv[i].ApiKey < adv[j].ApiKey })
+	sort.Slice(adv, func(i, j int) bool {
+		// a cold sweep asks for ApiVersions first, as a client does, while the proxy may not be ready yet
+		if cold && (adv[i].ApiKey == 18) != (adv[j].ApiKey == 18) {
+			return adv[i].ApiKey == 18
+		}
+		return adv[i].ApiKey < adv[j].ApiKey
+	})
+	if cold && !w.p.isReady() {
+		w.sim.Probe("c11.proxy-cold-sweep")
+	}
 	seq := 0
 	for _, k := range adv {
 		if k.MinVersion < 0 || k.MaxVersion < k.MinVersion {
@@ -260,7 +276,12 @@ func (w *w4) sweepClient(id int, op simrt.Op) {
 		if simrt.Dying() {
 			return
 		}
-		clean := !troubled && w.faultsFiredTotal() == before
+		clean := !troubled && !cold && w.faultsFiredTotal() == before
+		if k.ApiKey == 18 {
+			// the proxy answers ApiVersions from its own table: no backend state, readiness or injected
+			// backend fault can excuse silence
+			clean = true
+		}
 		replies := map[int32][]byte{}
 		out := conn.Out
 		for off := 0; off+4 <= len(out); {
@@ -282,7 +303,7 @@ func (w *w4) sweepClient(id int, op simrt.Op) {
 			data, ok := replies[s.corr]
 			if !ok {
 				if s.advertised && clean {
-					w.sim.Fail("C11", "proxy-no-reply", "%s v%d is advertised by the proxy but got no reply (all backends up, no fault injected)", kmsg.NameForKey(k.ApiKey), s.req.GetVersion())
+					w.sim.Fail("C11", "proxy-no-reply", "%s v%d is advertised by the proxy but got no reply (proxy ready=%v; nothing injected that could excuse it)", kmsg.NameForKey(k.ApiKey), s.req.GetVersion(), w.p.isReady())
 					return
 				}
 				w.sim.Probe("c11.proxy-no-reply-tolerated")
